@@ -44,7 +44,11 @@ RULE = (
     'expression / operation / eta-name lists, which must equal the single-parameter calls one after the other (random + enumerated); '
     'sub-check error_multidv applies 2-3 error-model setters one after the other to the DVs (dv argument None/1/2) of the '
     'multi-DV corpus models (every ordered pair of basic setters x DV order is enumerated), each step must give the documented '
-    'form on its DV and leave the other DV alone. Before/after models are evaluated at the same point (new '
+    'form on its DV and leave the other DV alone; every function with a dv argument is called with dv=None, the DVID number and '
+    'the DV name, on single-DV models too, after the functions that introduce aliases / extra structure (enumerated for pheno, '
+    'basic_iv, pheno_real); sub-check transit_history applies 2-3 set_transit_compartments steps n1 -> n2 (-> n3), n in 0..4, both '
+    'directions incl. reductions to 1 and 0, on models with and without depot (all pairs enumerated for 2 + 2 models) with the '
+    'transit relations checked after every step. Before/after models are evaluated at the same point (new '
     'thetas/etas get generated values) and related by the formula documented in the docstring. Non-trivial = the target '
     'parameter already carries an eta or covariate effect or is piecewise / defined in several statements, or the model '
     'came from >= 1 prior transformation (error: the previous error model is not the plain single-epsilon one or a prior '
@@ -1154,7 +1158,7 @@ ERR_SPEC = st.fixed_dictionaries(
         gen=idx(NGEN),
         prior=idx(len(ERR_PRIORS)),
         ext=idx(len(ERR_EXTS)),
-        dv=idx(3),
+        dv=idx(5),
         eps=st.integers(0, 7),
         same=idx(2),
         cut=idx(len(CUTOFFS)),
@@ -1272,7 +1276,7 @@ def run_error(spec):
 MULTIDV_EXTS = ['additive', 'proportional', 'proportional_nozp', 'combined', 'additive', 'proportional', 'combined', 'power', 'iiv_on_ruv', 'time_varying',
                 'additive_log', 'weighted', 'thetas']
 
-MDV_STEP = st.fixed_dictionaries(dict(ext=idx(len(MULTIDV_EXTS)), dv=idx(3), eps=st.integers(0, 7), same=idx(2), cut=idx(len(CUTOFFS)), lloq=idx(len(LLOQS))))
+MDV_STEP = st.fixed_dictionaries(dict(ext=idx(len(MULTIDV_EXTS)), dv=idx(5), eps=st.integers(0, 7), same=idx(2), cut=idx(len(CUTOFFS)), lloq=idx(len(LLOQS))))
 MDV_SPEC = st.fixed_dictionaries(dict(gen=idx(NGEN), steps=st.lists(MDV_STEP, min_size=2, max_size=3), k=st.integers(0, 30), r=st.integers(0, 400)))
 
 
@@ -1316,7 +1320,7 @@ def run_error_multidv(spec):
         except Violation as v:
             v.detail = f'step {j + 1} after {renders}: {v.detail}'
             raise
-        classes += [c for c in info.classes if not c.startswith('prior=')] + [f'step{j + 1}-dv={stp["dv"] % 3}']
+        classes += [c for c in info.classes if not c.startswith('prior=')] + [f'step{j + 1}-dv={stp["dv"] % 5}']
         renders.append(info.render['case'].split(': ', 1)[-1])
         keys.append(info.key.split('|', 3)[-1])
         evals += info.evals
@@ -1336,11 +1340,15 @@ def _error_on(m1, mid, gen, prior, ext, spec):
     k, r = spec['k'], spec['r']
     dvs = [str(d) for d in m1.dependent_variables.keys()]
     dvids = list(m1.dependent_variables.values())
+    # dv argument: 0 None (default DV); 1 / 2 first / second DV by DVID number; 3 / 4 first / second DV by name
+    # (single-DV models: the only DV, given explicitly)
     dvarg = None
     yname = dvs[0]
-    if len(dvs) > 1 and spec['dv'] % 3:
-        i = (spec['dv'] % 3 - 1) % len(dvs)
-        yname, dvarg = dvs[i], dvids[i]
+    dvmode = spec['dv'] % 5
+    if dvmode:
+        i = ((dvmode - 1) % 2) % len(dvs)
+        yname = dvs[i]
+        dvarg = dvids[i] if dvmode <= 2 else dvs[i]
     first_only = ext in ('weighted', 'dtbs', 'dtbs_fixlog', 'thetas', 'blq_m3', 'blq_m4')
     if first_only:
         yname, dvarg = dvs[0], None
@@ -1357,7 +1365,7 @@ def _error_on(m1, mid, gen, prior, ext, spec):
         raise Reject('prediction not finite / zero at point')
     c1 = eps_coefficients(m1, p1, yname)
     head = f'{mid} gen={gen} prior={prior}'
-    classes = [f'ext={ext}', f'prior={prior}']
+    classes = [f'ext={ext}', f'prior={prior}', 'dv=' + ('none' if dvarg is None else type(dvarg).__name__)]
     n_act1 = sum(1 for c in c1.values() if c != 0.0)
     evals = 1
     others = [d for d in dvs if d != yname]
@@ -1936,6 +1944,21 @@ def _enum_variability(tier):
                         yield dict(base, m=m, prior=VAR_PRIORS.index('remove_iiv_all') if m == 'pheno' else 0, form=form, op=op, dist=shape, etas=etas, how=etas)
 
 
+def _enum_error(tier):
+    """every function with a dv argument, called with dv=None / DVID number / name, after the functions that introduce
+    aliases or extra structure (W, ETA_RV1, time_varying, SD thetas)"""
+    exts = [ERR_EXTS.index(x) for x in ('additive', 'proportional', 'combined', 'time_varying', 'power', 'iiv_on_ruv')]
+    for m, priors in (('pheno', ('none', 'weighted', 'iiv_on_ruv', 'time_varying', 'thetas', 'combined')),
+                      ('basic_iv', ('none', 'weighted', 'iiv_on_ruv', 'time_varying', 'thetas', 'combined')),
+                      ('pheno_real', ('none', 'weighted'))):
+        if m not in model_names():
+            continue
+        for pr in priors:
+            for e in exts:
+                for dv in (0, 1, 3):
+                    yield dict(m=m, gen=0, prior=ERR_PRIORS.index(pr), ext=e, dv=dv, eps=0, same=0, cut=0, lloq=0, k=2, r=60)
+
+
 def _enum_multidv(tier):
     """every ordered pair of basic setters applied to the two DVs one after the other"""
     basic = [MULTIDV_EXTS.index(x) for x in ('additive', 'proportional', 'proportional_nozp', 'combined')]
@@ -1949,7 +1972,7 @@ def _enum_multidv(tier):
 SUBCHECKS = [
     SubCheck('covariate', lambda: COV_SPEC, run_covariate, quick=400, thorough=7090),
     SubCheck('variability', lambda: VAR_SPEC, run_variability, quick=600, thorough=10640, enumerate=_enum_variability),
-    SubCheck('error', lambda: ERR_SPEC, run_error, quick=550, thorough=9750),
+    SubCheck('error', lambda: ERR_SPEC, run_error, quick=450, thorough=9750, enumerate=_enum_error),
     SubCheck('error_multidv', lambda: MDV_SPEC, run_error_multidv, quick=150, thorough=2660, enumerate=_enum_multidv),
     SubCheck('transit_absorption', lambda: ABS_SPEC, run_transit_absorption, quick=300, thorough=5320),
     SubCheck('transit_history', lambda: TRH_SPEC, run_transit_history, quick=120, thorough=2000, enumerate=_enum_transit_history),
